@@ -20,6 +20,17 @@ add("C12", True, "E1-bfs", "model_checking",
     "Trusted: the harness plays Discovery's part (which DB call each SPDP event makes: discovery.rs handle_participant_reader / participant_cleanup); absent lease accepted as 60 s or 100 s; virtual clock seam.",
     "5.12")
 
+add("C01", True, "E1-bfs", "model_checking",
+    "explicit-state BFS (history replay) over all arrival histories on the real MessageReceiver/Reader/TopicCache/DataReader stack; ledger oracle",
+    "All histories up to the depth bound over {DATA(w,sn), DATAFRAG(w,sn,f), HEARTBEAT(w,first,last,final) with fresh count, stale HEARTBEAT, GAP(w,start,base,set), take(1|all)} for one writer (plain, fragmented, never-sent, plain) and for two writers (plain/fragmented/dispose and unavailable/plain/plain), any order, any duplication, any omission, are pushed as serialized datagrams through MessageReceiver::handle_received_packet into a real reliable Reader, TopicCache and DataReader. After every event the oracle checks what DataReader::take handed over and what TopicCache::get_changes_in_range_reliable would release next against a ledger of what was really delivered and really declared unavailable: per-writer strictly increasing, never twice, no hole, content/key/source timestamp/writer GUID equal to what was sent, ack base never past a sample neither received nor declared unavailable. States merged on a canonical digest (proxy, fragment assemblers, topic cache, read pointers, DataSampleCache; timestamps by rank).",
+    "Trusted: ledger/oracle in harness/src/c01.rs; writers behave legally (ranges only move forward, GAP only for samples never sent); virtual RTPS clock; resource limits not reached; depth bound (quick 7/6, thorough 9/8).",
+    "5.1")
+add("C03", True, "E1-bfs", "model_checking",
+    "same explicit-state BFS as C01 plus a wide-window family; oracle on every ACKNACK/NACKFRAG captured at the network seam",
+    "Same exploration as C01 plus config W (600-sample stream, sparse arrivals, HEARTBEAT ranges of width 254/255/256/257/600, GAPs across the 256 window). Every datagram the reader emits is captured at UDPSender::send_to_locator, re-parsed with Message::read_from_buffer and checked: sent only in answer to a fresh HEARTBEAT and to that writer's locator; base <= lowest sample neither received nor declared unavailable; base never decreases; every listed sample really missing, inside the advertised range and inside the 256 window; counts strictly increasing per stream and never reused across ACKNACK/NACKFRAG; the lowest missing sample of the advertised range is requested (ACKNACK bit, or NACKFRAG naming exactly the missing fragments if partially received).",
+    "Trusted: as C01. A non-final HEARTBEAT with nothing missing is not required to be answered (the statement does not say so).",
+    "5.3")
+
 NOT_YET = {}
 
 def main():
